@@ -651,11 +651,16 @@ class BaseModel(ModelInterface):
         """
         from leaspy import __version__
 
+        from .factory import model_kind
         from .utilities import tensor_to_list
 
+        # `load` reads "name" as the kind of model to build: the instance name goes to its own key when it differs
+        kind = model_kind(self)
+        name = self.name if kind is None else kind.value
         return {
             "leaspy_version": __version__,
-            "name": self.name,
+            "name": name,
+            **({} if name == self.name else {"instance_name": self.name}),
             "features": self.features,
             "dimension": self.dimension,
             "hyperparameters": {
